@@ -1,6 +1,13 @@
 (* C12 - model of the egress decision of the socks5 server (pkg/socks5/egress.go, handler.go,
-   udp.go; apis/model/addr.go, socks.go) as it stands WITH the two fixes
-   fixes/C12-findaction-local-forms.diff and fixes/C12-udp-relay.diff applied.
+   udp.go; apis/model/addr.go, socks.go) as it stands WITH the fixes
+   fixes/C12-findaction-local-forms.diff and fixes/C12-udp-relay.diff applied, and with or without
+   fixes/C12-domain-literal.diff: the parameter fx of host_ip says which; tree_fixed is its value for the
+   tree the constants were regenerated from (C12_fixDomainLiteral, probed by harness/cmd/dumpconsts).
+
+   lit : bytes -> option bytes is the reading of a domain string as an IP literal by Go's resolver and dialer
+   (netip.ParseAddr, zone dropped, IPv4-mapped unmapped; None = not a literal, a lookup follows).  The text
+   syntax is not modelled: lit is a parameter of the model, the theorems hold for every lit with the stated
+   properties, and the driver supplies the real netip.ParseAddr reading with every case (L lines).
 
    Definitions only.  Bytes are N (< 256 on the wire), strings are lists of bytes.
    Numbers that come from the Go source of /repo are taken from M.gen.Consts; the numbers in
@@ -174,30 +181,48 @@ Definition find_user (cfg : config) (name : bytes) : option user :=
 
 (* ---------------------------------------------------------------- rejectPrivateAndLoopbackIPAction *)
 
-(* the IP that stands for the host: the address itself, or 127.0.0.1 / ::1 for the empty host and the
-   well-known names compared in lower case; None = some other name: DIRECT without a lookup *)
-Definition host_ip (a : addr) : option bytes :=
+Definition DOT : byte := 46.
+
+(* strings.TrimSuffix(s, "."): one trailing dot removed *)
+Fixpoint strip_dot (s : bytes) : bytes :=
+  match s with
+  | [] => []
+  | c :: r => match r with
+              | [] => if c =? DOT then [] else [c]
+              | _ => c :: strip_dot r
+              end
+  end.
+
+(* the IP that stands for the host: the address itself; with the fix (fx) the IP a domain string is a literal
+   of; 127.0.0.1 / ::1 for the empty host and the well-known names compared in lower case (with the fix:
+   less one trailing dot); None = some other name: DIRECT without a lookup *)
+Definition host_ip (fx : bool) (lit : bytes -> option bytes) (a : addr) : option bytes :=
   match a_ip a with
   | [] =>
-    let d := ascii_lower (a_fqdn a) in
-    match d with
-    | [] => Some v4loop16
-    | _ => if mem_bytes d names4 then Some v4loop16
-           else if mem_bytes d names6 then Some v6loop else None
+    match (if fx then lit (a_fqdn a) else None) with
+    | Some ip => Some ip
+    | None =>
+      let d := ascii_lower (a_fqdn a) in
+      match d with
+      | [] => Some v4loop16
+      | _ => let n := if fx then strip_dot d else d in
+             if mem_bytes n names4 then Some v4loop16
+             else if mem_bytes n names6 then Some v6loop else None
+      end
     end
   | ip => Some ip
   end.
 
 (* the IP on which private / loopback is judged: CONNECT to the unspecified address counts as loopback *)
-Definition effective_ip (cmd : N) (a : addr) : option bytes :=
-  match host_ip a with
+Definition effective_ip (fx : bool) (lit : bytes -> option bytes) (cmd : N) (a : addr) : option bytes :=
+  match host_ip fx lit a with
   | None => None
   | Some ip => if is_unspecified ip && (cmd =? CMD_CONNECT) then Some v4loop16 else Some ip
   end.
 
 (* true = REJECT *)
-Definition reject_local (cfg : config) (uname : bytes) (cmd : N) (a : addr) : bool :=
-  match effective_ip cmd a with
+Definition reject_local (fx : bool) (lit : bytes -> option bytes) (cfg : config) (uname : bytes) (cmd : N) (a : addr) : bool :=
+  match effective_ip fx lit cmd a with
   | None => false
   | Some ip =>
     let p := is_private ip in
@@ -251,8 +276,6 @@ Fixpoint has_suffix_rev (rs rsuf : bytes) : bool :=   (* both reversed: prefix t
 Definition has_suffix (s suf : bytes) : bool := has_suffix_rev (rev s) (rev suf).
 
 Definition STAR : bytes := [42].
-Definition DOT : byte := 46.
-
 Definition match_domain (dom : bytes) (d : bytes) : bool :=
   bytes_eqb d STAR || bytes_eqb dom d || has_suffix dom (DOT :: d).
 
@@ -291,17 +314,17 @@ Definition rules_action (cfg : config) (a : addr) (idx : N) : N * option bytes :
 
 (* ---------------------------------------------------------------- FindAction *)
 
-Definition decide (cfg : config) (uname : bytes) (cmd : N) (a : addr) (idx : N) : N * option bytes :=
+Definition decide (fx : bool) (lit : bytes -> option bytes) (cfg : config) (uname : bytes) (cmd : N) (a : addr) (idx : N) : N * option bytes :=
   if (cmd =? CMD_CONNECT) || (cmd =? CMD_ASSOC) then
-    if reject_local cfg uname cmd a then (ACT_REJECT, None) else rules_action cfg a idx
+    if reject_local fx lit cfg uname cmd a then (ACT_REJECT, None) else rules_action cfg a idx
   else (ACT_DIRECT, None).
 
 (* proto_ok: in.Protocol is SOCKS5_PROXY_PROTOCOL *)
-Definition find_action (cfg : config) (proto_ok : bool) (uname : bytes) (data : bytes) (idx : N)
+Definition find_action (fx : bool) (lit : bytes -> option bytes) (cfg : config) (proto_ok : bool) (uname : bytes) (data : bytes) (idx : N)
   : N * option bytes :=
   if proto_ok then
     match parse_request data with
-    | Some (cmd, a) => decide cfg uname cmd a idx
+    | Some (cmd, a) => decide fx lit cfg uname cmd a idx
     | None => (ACT_DIRECT, None)
     end
   else (ACT_DIRECT, None).
@@ -317,7 +340,7 @@ Inductive relay_out :=
    stop_on_error: the packet-over-stream loop returns on a malformed datagram, the datagram-mode
    loop skips it.  The filter is udpDatagramFilter: FindAction of the CONNECT request to the header
    address; the user is the one of the proxy connection. *)
-Definition relay_step (cfg : config) (uname : bytes) (stop_on_error : bool) (pkt : bytes) : relay_out :=
+Definition relay_step (fx : bool) (lit : bytes -> option bytes) (cfg : config) (uname : bytes) (stop_on_error : bool) (pkt : bytes) : relay_out :=
   let bad := if stop_on_error then RStop else RDropped in
   match pkt with
   | r0 :: r1 :: frag :: r =>
@@ -328,7 +351,7 @@ Definition relay_step (cfg : config) (uname : bytes) (stop_on_error : bool) (pkt
          | None => bad
          | Some (a, rest) =>
            let dst := firstn (length r - length rest) r in
-           if fst (find_action cfg true uname (VER :: CMD_CONNECT :: 0 :: dst) 0) =? ACT_REJECT
+           if fst (find_action fx lit cfg true uname (VER :: CMD_CONNECT :: 0 :: dst) 0) =? ACT_REJECT
            then RDropped
            else match a_ip a, a_fqdn a with
                 | [], [] => RDropped        (* resolveSocks5UDPAddr: unrecognized address *)
@@ -339,13 +362,13 @@ Definition relay_step (cfg : config) (uname : bytes) (stop_on_error : bool) (pkt
   end.
 
 (* destinations datagrams are sent to, over a whole association *)
-Fixpoint relay_run (cfg : config) (uname : bytes) (stop_on_error : bool) (pkts : list bytes) : list addr :=
+Fixpoint relay_run (fx : bool) (lit : bytes -> option bytes) (cfg : config) (uname : bytes) (stop_on_error : bool) (pkts : list bytes) : list addr :=
   match pkts with
   | [] => []
   | p :: ps =>
-    match relay_step cfg uname stop_on_error p with
-    | RSent a => a :: relay_run cfg uname stop_on_error ps
-    | RDropped => relay_run cfg uname stop_on_error ps
+    match relay_step fx lit cfg uname stop_on_error p with
+    | RSent a => a :: relay_run fx lit cfg uname stop_on_error ps
+    | RDropped => relay_run fx lit cfg uname stop_on_error ps
     | RStop => []
     end
   end.
@@ -358,6 +381,8 @@ Fixpoint relay_run (cfg : config) (uname : bytes) (stop_on_error : bool) (pkts :
         over the three binary forms: 4 bytes, IPv4-mapped 16 bytes, native 16 bytes
      "an empty or unspecified host"                                     -> EmptyHost / UnspecIP
      "one of the well-known local host names in any letter case"        -> LocalName
+     a destination the resolver and the dialer take as such an IP address without any lookup (an IP
+     literal in a domain-typed address) is that IP address                -> HostIs
    Empty, unspecified and named hosts reach the server's own machine and therefore fall under the
    loopback permission. *)
 
@@ -391,24 +416,41 @@ Inductive UnspecIP : bytes -> Prop :=
 | UI_mapped : UnspecIP (mapped zero4)                          (* ::ffff:0.0.0.0 *)
 | UI_v6 : UnspecIP zero16.                                     (* :: *)
 
-(* a name is local when its lower-case form is one of the well-known names: any letter case *)
-Definition LocalName (s : bytes) : Prop := In (ascii_lower s) (names4 ++ names6).
+(* a name is local when its lower-case form, less one trailing dot (the absolute spelling of the same name),
+   is one of the well-known names: any letter case *)
+Definition LocalName (s : bytes) : Prop := In (strip_dot (ascii_lower s)) (names4 ++ names6).
+
+(* the destination is the IP address ip: in binary form, or written as an IP literal in a domain-typed
+   address (lit is the reading of Go's resolver and dialer, which then use ip without any lookup) *)
+Definition HostIs (lit : bytes -> option bytes) (a : addr) (ip : bytes) : Prop :=
+  (a_ip a = ip /\ a_fqdn a = []) \/ (a_ip a = [] /\ lit (a_fqdn a) = Some ip).
 
 (* destinations under the loopback permission, for a request with command cmd.
    The unspecified address in a UDP ASSOCIATE *request* is excluded here: see C12_assoc_unspecified_refuted. *)
-Definition LoopDest (cmd : N) (a : addr) : Prop :=
-  (LoopbackIP (a_ip a) /\ a_fqdn a = []) \/
+Definition LoopDest (lit : bytes -> option bytes) (cmd : N) (a : addr) : Prop :=
+  (exists ip, HostIs lit a ip /\ LoopbackIP ip) \/
   (a_ip a = [] /\ a_fqdn a = []) \/
   (a_ip a = [] /\ LocalName (a_fqdn a)) \/
-  (UnspecIP (a_ip a) /\ a_fqdn a = [] /\ cmd = CMD_CONNECT).
+  (exists ip, HostIs lit a ip /\ UnspecIP ip /\ cmd = CMD_CONNECT).
 
 (* the full set of the property text (no exception) *)
-Definition LoopDestFull (a : addr) : Prop :=
-  LoopDest CMD_CONNECT a.
+Definition LoopDestFull (lit : bytes -> option bytes) (a : addr) : Prop :=
+  LoopDest lit CMD_CONNECT a.
 
-Definition PrivDest (a : addr) : Prop := PrivateIP (a_ip a) /\ a_fqdn a = [].
+Definition PrivDest (lit : bytes -> option bytes) (a : addr) : Prop :=
+  exists ip, HostIs lit a ip /\ PrivateIP ip.
 
-Definition LocalDest (a : addr) : Prop := LoopDestFull a \/ PrivDest a.
+Definition LocalDest (lit : bytes -> option bytes) (a : addr) : Prop := LoopDestFull lit a \/ PrivDest lit a.
+
+(* what the theorems ask of lit: the empty string and the well-known names are no IP literals, and a
+   literal denotes 4 or 16 byte values (all true of netip.ParseAddr; checked by the driver on every case) *)
+Definition lit_sane (lit : bytes -> option bytes) : Prop :=
+  lit [] = None /\ (forall s ip, lit s = Some ip -> ~ LocalName s).
+Definition lit_bytes_ok (lit : bytes -> option bytes) : Prop :=
+  forall s ip, lit s = Some ip -> bytes_ok ip.
+
+(* is fixes/C12-domain-literal.diff in the tree the constants came from? *)
+Definition tree_fixed : bool := (C12_fixDomainLiteral =? 1)%Z.
 
 Definition user_loop (cfg : config) (uname : bytes) : bool :=
   match find_user cfg uname with Some u => u_loop u | None => false end.
